@@ -16,6 +16,55 @@ pub trait Sc:
     /// equality of arithmetic results: exact in exact domains, a few ulps of `scale` for floats
     fn close(a: Self, b: Self, scale: f64) -> bool;
     fn to_f(self) -> f64;
+    /// the greatest value of the type (+inf or MAX): the `min` of an inside-out "accumulator" box
+    fn is_top(self) -> bool {
+        false
+    }
+    /// the least value of the type (-inf, -MAX or MIN): the `max` of an inside-out "accumulator" box
+    fn is_bot(self) -> bool {
+        false
+    }
+}
+macro_rules! sc_int {
+    ($($T:ident)+) => {$(
+        impl Sc for $T {
+            const EXACT: bool = true;
+            fn from_i(n: i32) -> $T {
+                n as $T
+            }
+            fn close(a: $T, b: $T, _: f64) -> bool {
+                a == b
+            }
+            fn to_f(self) -> f64 {
+                self as f64
+            }
+            fn is_top(self) -> bool {
+                self == $T::MAX
+            }
+            fn is_bot(self) -> bool {
+                self == $T::MIN
+            }
+        }
+    )+};
+}
+sc_int!(i8 i16 i64 u8 u16 u32 u64);
+impl Sc for f32 {
+    const EXACT: bool = false;
+    fn from_i(n: i32) -> f32 {
+        n as f32
+    }
+    fn close(a: f32, b: f32, scale: f64) -> bool {
+        a == b || ((a - b).abs() as f64) <= 8.0 * f32::EPSILON as f64 * scale.abs().max(1.0)
+    }
+    fn to_f(self) -> f64 {
+        self as f64
+    }
+    fn is_top(self) -> bool {
+        self == f32::INFINITY || self == f32::MAX
+    }
+    fn is_bot(self) -> bool {
+        self == f32::NEG_INFINITY || self == -f32::MAX
+    }
 }
 impl Sc for i32 {
     const EXACT: bool = true;
@@ -27,6 +76,12 @@ impl Sc for i32 {
     }
     fn to_f(self) -> f64 {
         self as f64
+    }
+    fn is_top(self) -> bool {
+        self == i32::MAX
+    }
+    fn is_bot(self) -> bool {
+        self == i32::MIN
     }
 }
 impl Sc for Rat {
@@ -51,6 +106,44 @@ impl Sc for f64 {
     }
     fn to_f(self) -> f64 {
         self
+    }
+    fn is_top(self) -> bool {
+        self == f64::INFINITY || self == f64::MAX
+    }
+    fn is_bot(self) -> bool {
+        self == f64::NEG_INFINITY || self == -f64::MAX
+    }
+}
+
+/// true iff `x` is unordered with itself (a float NaN); never true for integers and rationals
+pub fn nan<T: PartialOrd>(x: T) -> bool {
+    x.partial_cmp(&x).is_none()
+}
+/// equal by value, or both NaN (+0.0 and -0.0 are equal: they denote the same point)
+pub fn veq<T: PartialOrd + Copy>(a: T, b: T) -> bool {
+    a == b || (nan(a) && nan(b))
+}
+pub fn veq_arr<T: PartialOrd + Copy, const N: usize>(a: &[T; N], b: &[T; N]) -> bool {
+    (0..N).all(|k| veq(a[k], b[k]))
+}
+pub fn veq_box<T: PartialOrd + Copy, const N: usize>(a: &Ob<T, N>, b: &Ob<T, N>) -> bool {
+    veq_arr(&a.lo, &b.lo) && veq_arr(&a.hi, &b.hi)
+}
+pub fn veq_rect<T: PartialOrd + Copy, const N: usize>(a: &Or<T, N>, b: &Or<T, N>) -> bool {
+    veq_arr(&a.pos, &b.pos) && veq_arr(&a.ext, &b.ext)
+}
+pub fn pmin<T: PartialOrd>(a: T, b: T) -> T {
+    if b < a {
+        b
+    } else {
+        a
+    }
+}
+pub fn pmax<T: PartialOrd>(a: T, b: T) -> T {
+    if b > a {
+        b
+    } else {
+        a
     }
 }
 
@@ -82,6 +175,16 @@ impl<T: Copy + PartialOrd, const N: usize> Ob<T, N> {
     }
     pub fn positive(&self) -> bool {
         (0..N).all(|k| self.lo[k] < self.hi[k])
+    }
+    pub fn has_nan(&self) -> bool {
+        (0..N).any(|k| nan(self.lo[k]) || nan(self.hi[k]))
+    }
+}
+impl<T: Sc, const N: usize> Ob<T, N> {
+    /// the inside-out "accumulator" box: min = greatest value, max = least value on every axis
+    /// (the empty set, identity of `union` / `expanded_to_contain_point`)
+    pub fn accumulator(&self) -> bool {
+        (0..N).all(|k| self.lo[k].is_top() && self.hi[k].is_bot())
     }
 }
 
